@@ -25,3 +25,23 @@ Example C07_frag_example : (* first packet of a 3-packet frame lost, then an int
   snd (dec_run dinit (tl (fst (enc 2 10 [1;2;3;4;5])) ++ fst (enc 2 13 [6;7;8]) ++ fst (enc 2 15 [9;10;11])))
   = [DMore; DFrame [3;4;5]; DMore; DFrame [6;7;8]; DMore; DFrame [9;10;11]].
 Proof. reflexivity. Qed.
+
+(* ---- the translated resynchronisation tests of rtpfragmented/decoder.go (tools/go2coq, spec.d/frag.txt) ----
+   d.fragmentsSize == 0, d.fragmentNextSeqNum = pkt.SequenceNumber + 1, pkt.SequenceNumber != d.fragmentNextSeqNum,
+   d.fragmentNextSeqNum++ are the tests / updates of Model.dec (uint16 wrap-around = seq_next). *)
+From Coq Require Import ZArith.
+From GVG Require Import Kern.
+From GV_frag Require Import BridgeLib BridgeSites.
+Open Scope Z_scope.
+Theorem C07_frag_kernels_are_the_code : forall (seq next fs : N), u16 seq -> u16 next ->
+  k_frag_dec_nofrag (Z.of_N fs) = (fs =? 0)%N /\
+  k_frag_dec_nextseq (Z.of_N seq) = Z.of_N (seq_next seq) /\
+  k_frag_dec_gap (Z.of_N seq) (Z.of_N next) = negb (seq =? next)%N /\
+  k_frag_dec_incseq (Z.of_N next) = Z.of_N (seq_next next).
+Proof. exact resync_sites_are_the_code. Qed.
+Print Assumptions C07_frag_kernels_are_the_code.
+
+Example C07_frag_example_kernels :
+  k_frag_dec_nextseq 65535 = 0 /\ k_frag_dec_incseq 9 = 10 /\ k_frag_dec_gap 10 10 = false /\ k_frag_dec_gap 11 10 = true /\
+  k_frag_dec_nofrag 0 = true.
+Proof. vm_compute. repeat split. Qed.
